@@ -8,7 +8,7 @@ For each /tmp/seed/<prop>/out/m<i>/ : in ONE scratch worktree of /repo (outside 
   4. demo.sh <mutated binary>                  (must FAIL: property broken)
   5. git checkout -- . ; cargo build ; demo.sh (must PASS on the unchanged tree)
 Then run the /verif checks for the property against the patched source (engine V reads text) and
-record which obligations report it.  Usage: confirm_seeds.py C01 C02 ...
+record which obligations report it.  Usage: confirm_seeds.py C01 C02 C06r2 ...
 """
 import os, sys, json, subprocess, shutil, glob, re, time
 SEED = "/tmp/seed"
@@ -32,9 +32,16 @@ def ensure_wt():
 def main():
     props = sys.argv[1:]
     ensure_wt()
-    for prop in props:
-        for d in sorted(glob.glob(os.path.join(SEED, prop, "out", "m*"))):
-            mid = "%s-%s" % (prop, os.path.basename(d))
+    for src in props:
+        # a delivery directory may be a later round for the same property (C06r2 -> property C06, ids continue)
+        prop = re.match(r"C\d\d", src).group(0)
+        for d in sorted(glob.glob(os.path.join(SEED, src, "out", "m*"))):
+            if src == prop:
+                mid = "%s-%s" % (prop, os.path.basename(d))
+            else:
+                used = [int(re.search(r"-m(\d+)$", x).group(1)) for x in glob.glob(os.path.join(OUT, prop + "-m*")) + glob.glob(os.path.join(OUT, "retired", prop + "-m*"))]
+                tagf = os.path.join(d, ".filed_as")
+                mid = open(tagf).read().strip() if os.path.exists(tagf) else "%s-m%d" % (prop, max(used + [0]) + 1)
             patch = os.path.join(d, "patch.diff")
             demo = os.path.join(d, "demo.sh")
             if not (os.path.exists(patch) and os.path.exists(demo)):
@@ -89,6 +96,7 @@ def main():
                         detected=bool(rec["detected_by"]), detected_by=rec["detected_by"], undecided=rec["undecided"], check_summary=rec["check_summary"],
                         checked_at=time.strftime("%Y-%m-%d %H:%M:%S"))
             json.dump(meta, open(os.path.join(dst, "meta.json"), "w"), indent=1)
+            open(os.path.join(d, ".filed_as"), "w").write(mid)
             print(mid, "CONFIRMED; detected_by =", rec["detected_by"] or "NOTHING", "| undecided:", und[:1])
 
 if __name__ == "__main__":
